@@ -34,7 +34,7 @@ type qEvent struct {
 }
 
 func genQAct(t *rapid.T) qAct {
-	a := qAct{Kind: rapid.SampledFrom([]string{"invalid-default", "invalid-default", "invalid-custom", "invalid-custom", "notfound", "error", "events", "model", "collection", "none", "panic", "timeout", "badpayload", "noquery"}).Draw(t, "kind")}
+	a := qAct{Kind: rapid.SampledFrom([]string{"invalid-default", "invalid-default", "invalid-custom", "invalid-custom", "notfound", "error", "events", "events", "model", "collection", "none", "panic", "timeout", "badpayload", "noquery"}).Draw(t, "kind")}
 	switch a.Kind {
 	case "invalid-custom":
 		a.Msg = rapid.OneOf(rapid.SampledFrom([]string{"x", "no", "bad q", "Invalid query", "a considerably longer message than the default one"}), gen.StringTricky()).Draw(t, "msg")
@@ -50,6 +50,9 @@ func genQAct(t *rapid.T) qAct {
 	case "events":
 		a.N = rapid.IntRange(0, 3).Draw(t, "nev")
 		v := gen.ResValue(false).Draw(t, "v")
+		if rapid.IntRange(0, 3).Draw(t, "nullvalue") == 0 {
+			v = gen.Val{Kind: "json", JSON: "null"} // a nil value is a value: the member is present
+		}
 		a.V = &v
 	case "timeout":
 		a.N = rapid.SampledFrom([]int{0, 5, 1500, 86400000}).Draw(t, "ms")
@@ -210,6 +213,30 @@ func TestPropQueryRequests(t *testing.T) {
 				if msg := protoval.Response(resp[0], false); msg != "" {
 					fail = fmt.Sprintf("query request %d of event %d (%+v): %s", j, ei, a, msg)
 					break
+				}
+				if a.Kind == "events" {
+					// every event carried by the response has the shape documented for its type
+					var p struct {
+						Result *struct {
+							Events []struct {
+								Event string          `json:"event"`
+								Data  json.RawMessage `json:"data"`
+							} `json:"events"`
+						} `json:"result"`
+					}
+					if json.Unmarshal(resp[0], &p) == nil && p.Result != nil {
+						for k, e := range p.Result.Events {
+							if msg := protoval.Event(e.Event, e.Data); msg != "" {
+								fail = fmt.Sprintf("query request %d of event %d (%+v): event %d (%s) of the response %s: %s", j, ei, a, k, e.Event, resp[0], msg)
+							}
+						}
+						if typ == "collection" && len(p.Result.Events) != a.N {
+							fail = fmt.Sprintf("query request %d of event %d (%+v): the callback added %d events, the response carries %d: %s", j, ei, a, a.N, len(p.Result.Events), resp[0])
+						}
+					}
+					if fail != "" {
+						break
+					}
 				}
 				if want != "" && !gen.JSONEqual(resp[0], []byte(want)) {
 					if a.Kind == "noquery" {
